@@ -62,7 +62,7 @@ def parseTgt (t : String) : Option Tgt :=
     match (t.drop 1).toString.splitOn "." with
     | q :: path => do
       let q ← q.toNat?
-      let path ← path.mapM (·.toNat?)
+      let path ← (path.filter (· ≠ "n")).mapM (·.toNat?)     -- `n`: a noop op, the transform is the same without it
       pure (.ans q path)
     | [] => none
   | _ => none
